@@ -84,6 +84,20 @@ fn scn_oneshot(o: &Opts, tr: &mut Tr) {
         }
         tr.bulk_run += 1;
     }
+    // exactly 65535 / 65536 / 65537 matches on one distance symbol in a stream (16-bit symbol counters)
+    for d in [1000usize, 40, 9000] {
+        for units in [65535usize, 65536, 65537] {
+            for lvl in [2u8, 6] {
+                let kind = format!("unitmatch{}", d);
+                let data = gen::data(&kind, d + 8 * units, &mut r);
+                let zl = (units + d) % 2 == 0;
+                if oneshot_suspicious(&data, lvl, zl) && tr.take_suspicious_slot() {
+                    oneshot_case(tr, &format!("bulku-{}-{}-l{}-{}", kind, units, lvl, zl), "C01", &data, lvl, zl, "unitmatch");
+                }
+                tr.bulk_run += 1;
+            }
+        }
+    }
     let kinds = ["text", "rand", "alpha4", "zeros", "period7", "runs", "planted300", "mixed", "xx"];
     for (ki, kind) in kinds.iter().enumerate() {
         for (li, &lvl) in LEVELS_KEY.iter().enumerate() {
